@@ -135,6 +135,11 @@ func ErrSubscriptionMustOnlyHaveOneRootSelection(subscriptionName ast.ByteSlice)
 	return err
 }
 
+func ErrSubscriptionRootMustNotBeIntrospectionField(subscriptionName, fieldName ast.ByteSlice) (err ExternalError) {
+	err.Message = fmt.Sprintf("subscription: %s must not select the introspection field: %s as root field", subscriptionName, fieldName)
+	return err
+}
+
 func ErrFieldSelectionOnUnion(fieldName, unionName ast.ByteSlice) (err ExternalError) {
 
 	err.Message = fmt.Sprintf("cannot select field: %s on union: %s", fieldName, unionName)
